@@ -18,17 +18,27 @@ RULE = ("cells = solver family x (problem shape, storage, shift, start vector, p
         "step size, momentum, method ...) - the full product inside the bound; in each cell the matrix form and "
         "the forward/adjoint-function form are both run and the returned point is compared with dense "
         "reference optimality systems; projection / prox cells evaluate EVERY lattice input against EVERY "
-        "lattice competitor.  A cell is non-trivial when the solver stopped by its own convergence test "
-        "(before maxit) or, for prox cells, when the lattice has points on both sides of every bound")
+        "lattice competitor.  Start-representation facet: for every solver the same start POINT (zero / integer-valued with "
+        "mixed signs / far, all exactly representable) is handed over as integer-dtype array, float32 array, list and CUQIarray; "
+        "the returned point is judged by the same independent optimality systems AND compared with the float64-start run of "
+        "the same configuration (iterative solvers) resp. with the direct SciPy call on the same object (wrappers), and the "
+        "caller's start object must come back untouched (type, dtype, values).  A cell is non-trivial when the solver stopped "
+        "by its own convergence test (before maxit) or, for prox cells, when the lattice has points on both sides of every bound")
 BOUND = {
     "quick": "CGLS: 3 shapes (6x4,5x5,3x5) x dense/sparse x shift{0,.5} x 4 starts x {matrix,function}; PCGLS: same x "
              "P{I,diag,tridiag SPD,lower bidiagonal} x {explicit inverse, solve} ; FISTA/ISTA: 3 shapes x 7 regularisers (L1 x3, nonneg, box x3) "
              "x step{.5/L,.99/L} (+sparse and second start for 6x4), n<=5 so all 3^n active sets are enumerated; "
              "LM: 3 problems x 4 (sparse flag, Jacobian type) x 2 starts x gradtol {1e-9, 1e-15 (below round-off)} + matrix form; wrappers: L_BFGS_B 8 configs, minimize 10 methods "
              "x grad/no grad x ndarray/CUQIarray, maximize, LS 3 methods x 2 losses x jac/None; "
-             "projections/prox: d=1 (33-pt lattice), d=2 (13^2), d=3 (7^3): all inputs x all competitors",
+             "projections/prox: d=1 (33-pt lattice), d=2 (13^2), d=3 (7^3): all inputs x all competitors; "
+             "start representation {int64, float32, list, CUQIarray} x start point {zero, ints (+far for non-integer reps; "
+             "dyadic for wrappers)}: CGLS 3 shapes x shift{0,.5} x both forms, PCGLS same x P=lower bidiagonal x {explicit inverse, "
+             "solve}, FISTA and ISTA 6x4 x {L1, vector box} x both forms, LM {expfit, quadpert} x 2 starts x {sparse+csr, dense}, "
+             "L_BFGS_B grad/no grad x {none, bounds}, minimize+maximize 5 methods, LS 3 methods x jac/None x 2 starts",
     "thorough": "as quick with 4 shapes (adds 8x6), every start for every solver, 6 boxes, 4 L1 strengths, finer lattices "
-                "(d=2: 25^2, d=3: 13^3), 3 step sizes",
+                "(d=2: 25^2, d=3: 13^3), 3 step sizes; start representation adds int32 and integer list, sparse storage, all 4 "
+                "preconditioners, FISTA on all shapes x 5 regularisers x far start, LM Rosenbrock from integer starts, "
+                "all 10 minimize methods with and without gradient",
 }
 ASSUMPTIONS = [
     "numpy dense linear algebra (solve, lstsq, svd) is the trusted base of all reference optimality systems",
@@ -40,6 +50,16 @@ ASSUMPTIONS = [
     "values outside the catalogue (ill-conditioned or rank-deficient A, steps above 1/L, non-convex regularisers) are not covered",
     "wrappers: the reference is the direct SciPy call with the same arguments in the same process (SciPy is deterministic)",
     "for maximize the info fields may carry either sign (the statement says 'unchanged apart from sign')",
+    "start representation: every ndarray (integer dtype, float32, CUQIarray) is taken as a start vector the statement quantifies "
+    "over - raising for it is a violation; plain lists may be refused (documented type: ndarray) but if accepted the result is "
+    "judged like any other.  All start values of this facet are exactly representable in every representation, so the "
+    "float64-start run of the same configuration is the same mathematical iteration: agreement is demanded at 1e-7 (LM 1e-6), "
+    "and when the float64-start run meets the solver's stopping rule after k iterations, not meeting it from another "
+    "representation of the same point within maxit (CGLS/PCGLS/LM) resp. 10k+1000 iterations (FISTA/ISTA) is reported; "
+    "if the float64-start run itself is not usable the cell only counts (the float64 cells report that)",
+    "wrappers with a non-float64 start: reference = direct SciPy call on an equal object; where SciPy itself refuses "
+    "(float32 with the compiled TNC/SLSQP kernels) the wrapper must refuse too",
+    "user callbacks of the LM start-representation cells convert their argument with numpy.asarray(x, float)",
     "PCGLS accepts a `shift` argument; the statement's '(shifted, optionally preconditioned) normal equations' is read as: "
     "a non-zero shift is honoured or refused",
 ]
@@ -52,6 +72,11 @@ BOXES_T = ["default", "scalar", "vector", "lower-only", "upper-only", "degenerat
 L1_Q = [0.25, 1.0, 4.0]
 L1_T = [0.0, 0.25, 1.0, 4.0]
 MIN_METHODS = [None, "Nelder-Mead", "Powell", "CG", "BFGS", "L-BFGS-B", "TNC", "COBYLA", "SLSQP", "trust-constr"]
+MIN_METHODS_REP_Q = [None, "Nelder-Mead", "L-BFGS-B", "TNC", "SLSQP"]
+# representation of the start vector (facet "rep"): the same start POINT handed over as ...
+REPS_Q = ["int64", "float32", "list", "CUQIarray"]
+REPS_T = ["int64", "int32", "float32", "list", "intlist", "CUQIarray"]
+INT_REPS = ("int64", "int32", "intlist")
 
 
 # ----------------------------------------------------------------------------------------
@@ -118,6 +143,50 @@ def cells(tier, seed):
             for jac in (True, False):
                 for x0type in ("ndarray", "CUQIarray"):
                     out.append({"kind": "ls", "method": method, "loss": loss, "jac": jac, "x0type": x0type, "cat": k})
+    # ---- start-vector representation facet: the same start point as integer / float32 array, list, CUQIarray ----
+    reps = REPS_Q if q else REPS_T
+    for rep in reps:
+        vals = ("zero", "ints") if rep in INT_REPS else ("zero", "ints", "far")
+        for (m, n) in shapes:
+            for storage in (("dense",) if q else ("dense", "sparse")):
+                for shift in (0.0, 0.5):
+                    for start in vals:
+                        out.append({"kind": "cgls", "m": m, "n": n, "storage": storage, "shift": shift, "start": start,
+                                    "rep": rep, "cat": k})
+                        for P in (("lowertri",) if q else ("I", "diag", "tridiag", "lowertri")):
+                            for pinv in ("explicit", "solve"):
+                                out.append({"kind": "pcgls", "m": m, "n": n, "storage": storage, "shift": shift, "P": P,
+                                            "pinv": pinv, "start": start, "rep": rep, "cat": k})
+        fshapes = [(6, 4)] if q else shapes
+        fregs = [("l1", 1.0), ("box", "vector")] if q else [("l1", 0.25), ("l1", 1.0), ("nonneg", None), ("box", "vector"), ("box", "scalar")]
+        for (m, n) in fshapes:
+            for storage in (("dense",) if q else ("dense", "sparse")):
+                for start in (("zero", "ints") if q else vals):
+                    for adaptive in (True, False):
+                        for (rk, rp) in fregs:
+                            out.append({"kind": "fista", "m": m, "n": n, "storage": storage, "start": start, "adaptive": adaptive,
+                                        "reg": rk, "regpar": rp, "step": 0.99, "rep": rep, "cat": k})
+        for prob in (("expfit", "quadpert") if q else ("expfit", "quadpert", "introsen")):
+            for (sparse_flag, jtype) in ((True, "csr"), (False, "dense")):
+                for start in (0, 1):
+                    out.append({"kind": "lm", "prob": prob, "sparse": sparse_flag, "jtype": jtype, "start": start,
+                                "gradtol": "reachable", "rep": rep, "cat": k})
+        wvals = ("zero", "ints") if rep in INT_REPS else ("dyadic", "ints")
+        for x0val in wvals:
+            for grad in (True, False):
+                for kw in ("none", "bounds"):
+                    out.append({"kind": "lbfgsb", "n": 3, "grad": grad, "kw": kw, "x0type": rep, "x0val": x0val, "cat": k})
+            if rep != "CUQIarray":       # CUQIarray starts are part of the base product above
+                for method in (MIN_METHODS_REP_Q if q else MIN_METHODS):
+                    for grad in ((True,) if q else (True, False)):
+                        for which in ("minimize", "maximize"):
+                            out.append({"kind": "minimize", "which": which, "method": method, "grad": grad, "x0type": rep, "x0val": x0val,
+                                        "n": 2 if method in ("Nelder-Mead", "Powell", "COBYLA") else 3, "cat": k})
+        if rep != "CUQIarray":
+            for method in ("trf", "dogbox", "lm"):
+                for jac in (True, False):
+                    for st in (0, 1):
+                        out.append({"kind": "ls", "method": method, "loss": "linear", "jac": jac, "x0type": rep, "x0start": st, "cat": k})
     # projections / prox
     ops = [("nonneg", None)] + [("box", bx) for bx in BOXES_T] + [("l1", g) for g in ([0.0] + L1_Q if q else L1_T + [0.5])]
     for d in (1, 2, 3):
@@ -149,7 +218,58 @@ def _start(name, n, k):
         return e
     if name == "far":
         return 25.0 * refs.dyadic_vec(n, k + 2)
+    if name == "ints":          # integer-valued, mixed signs, one zero entry
+        return np.array([1.0, -2.0, 0.0, 3.0, -1.0, 2.0, -3.0, 1.0])[:n] * (1 + k % 2)
     raise ValueError(name)
+
+
+def _as_rep(v, rep):
+    """The start point v (float64 array) in representation `rep`; every value used is exactly representable."""
+    v = np.asarray(v, float)
+    if rep in ("float64", "ndarray"):
+        out = v.copy()
+    elif rep == "int64":
+        out = v.astype(np.int64)
+    elif rep == "int32":
+        out = v.astype(np.int32)
+    elif rep == "float32":
+        out = v.astype(np.float32)
+    elif rep == "list":
+        out = [float(t) for t in v]
+    elif rep == "intlist":
+        out = [int(t) for t in v]
+    elif rep == "CUQIarray":
+        import cuqi
+        out = cuqi.array.CUQIarray(v.copy(), geometry=cuqi.geometry.Continuous1D(len(v)))
+    else:
+        raise ValueError(rep)
+    if not np.array_equal(np.asarray(out, dtype=float), v):
+        raise ValueError("start value %s not exactly representable as %s" % (v.tolist(), rep))
+    return out
+
+
+def _rep_class(rep):
+    return {"int64": "integer-array", "int32": "integer-array", "intlist": "list", "list": "list", "float32": "float32",
+            "CUQIarray": "CUQIarray"}.get(rep, rep)
+
+
+def _may_refuse(rep):
+    """The documented start type is ndarray: every ndarray (any real dtype, CUQIarray included) is a start point the
+    statement quantifies over; a loud refusal is accepted only for plain lists."""
+    return rep in ("list", "intlist")
+
+
+def _start_unchanged(obj, v, rep):
+    """The caller's start object still is what was handed over (type, dtype and values)."""
+    try:
+        if rep in ("list", "intlist"):
+            return isinstance(obj, list) and [type(t) for t in obj] == [float if rep == "list" else int] * len(v) \
+                and [float(t) for t in obj] == [float(t) for t in v]
+        want = _as_rep(v, rep)
+        return type(obj) is type(want) and obj.dtype == want.dtype and obj.shape == want.shape \
+            and np.array_equal(np.asarray(obj), np.asarray(want))
+    except Exception:
+        return False
 
 
 def _store(A, storage):
@@ -212,6 +332,9 @@ def _eval_cg(cell, res):
     try:
         if kind == "pcgls" and cell["pinv"] == "solve":
             cuqi.config.MAX_DIM_INV = 1     # configuration facet: dimension above the explicit-inverse threshold
+        if cell.get("rep", "float64") != "float64":
+            _eval_cg_rep(cell, res, A, b, x0, H, rhs, xref, scale, maxit, tol)
+            return
         for form in ("matrix", "function"):
             Aop = _store(A, cell["storage"])
             op = Aop if form == "matrix" else _funform(Aop)
@@ -272,6 +395,80 @@ def _eval_cg(cell, res):
         res.nontrivial = False
     if "matrix" in sols:
         res.sample = {"x": sols["matrix"], "dense_reference": xref}
+
+
+def _eval_cg_rep(cell, res, A, b, x0, H, rhs, xref, scale, maxit, tol):
+    """Start-representation cell: the start point x0 handed over as `rep`; both operator forms.  Oracle: raises (where a
+    refusal is acceptable), or the returned point solves the dense normal equations, agrees with the float64-start run of the
+    same configuration and is reached by the solver's own stopping rule whenever the float64-start run is; the caller's
+    start object is left untouched."""
+    from cuqi.solver._solver import CGLS, PCGLS
+    m, n, k = cell["m"], cell["n"], cell["cat"]
+    shift, kind, rep = cell["shift"], cell["kind"], cell["rep"]
+    name = "CGLS" if kind == "cgls" else "PCGLS"
+    rc = _rep_class(rep)
+
+    def run(op, start):
+        if kind == "cgls":
+            return CGLS(op, b.copy(), start, maxit, tol, shift).solve()
+        return PCGLS(op, b.copy(), start, _P(cell["P"], n, k), maxit, tol, shift).solve()
+
+    bad = {}
+    for form in ("matrix", "function"):
+        Aop = _store(A, cell["storage"])
+        op = Aop if form == "matrix" else _funform(Aop)
+        res.state("%s:%s:%s" % (form, cell["start"], rep))
+        try:
+            x64, it64 = run(op, x0.copy())
+            x64 = np.asarray(x64, float).ravel()
+            r64 = float(np.linalg.norm(A.T @ (b - A @ x64) - shift * x64))
+            ok64 = it64 < maxit and np.all(np.isfinite(x64)) and r64 <= 1e-7 * max(scale, float(np.linalg.norm(H @ x64)))
+        except Exception:
+            ok64 = False
+        if not ok64:
+            res.count("float64-start-run-not-usable")     # not a representation matter; the float64 cells report it
+            continue
+        xobj = _as_rep(x0, rep)
+        try:
+            x, it = run(op, xobj)
+        except Exception as e:
+            res.refused += 1
+            res.outcomes.add("%s:raises:%s" % (rc, type(e).__name__))
+            if not _may_refuse(rep):
+                res.fail("C16|%s|raises|x0=%s" % (name, rc), "solver raised %r for a %s start vector" % (e, rep))
+            continue
+        res.transitions += int(it)
+        res.evaluations += 3
+        if not _start_unchanged(xobj, x0, rep):
+            res.fail("C16|%s|start-vector-altered|x0=%s" % (name, rc), "the caller's start vector was modified by solve()", form=form)
+        try:
+            xa = np.asarray(x, float).ravel()
+            if xa.shape != (n,):
+                raise ValueError("shape %s" % (xa.shape,))
+        except Exception as e:
+            bad[form] = ("returned object unusable as a vector: %r" % (e,), None)
+            continue
+        res.count("returned")
+        res.outcomes.add("%s:%s:%s:it=%d(float64 start: %d):%s" % (form, _shape_class(m, n), rc, it, it64, np.asarray(x).dtype))
+        rn = float(np.linalg.norm(A.T @ (b - A @ xa) - shift * xa)) if np.all(np.isfinite(xa)) else float("inf")
+        why = None
+        if it >= maxit:
+            why = ("stopping rule (tol=%g) not met within %d iterations; from the float64 representation of the same point it is "
+                   "met after %d" % (tol, maxit, it64))
+        elif not rn <= 1e-7 * max(scale, float(np.linalg.norm(H @ xa))):
+            why = "stopped after %d<maxit iterations but ||A^T(b-Ax)-s x|| = %.3g (float64 start: %.3g, scale %.3g)" % (it, rn, r64, scale)
+        elif xref is not None and not close(xa, xref, 1e-7):
+            why = "returned point differs from the dense solution of the normal equations"
+        elif not close(xa, x64, 1e-7):
+            why = "returned point differs from the one reached from the float64 representation of the same start point"
+        if why:
+            bad[form] = (why, xa)
+    if bad:
+        f0 = sorted(bad)[0]
+        res.fail("C16|%s|start-representation|x0=%s" % (name, rc), "%s start %s: %s" % (rep, cell["start"], bad[f0][0]),
+                 x=bad[f0][1], xref=xref, forms=sorted(bad))
+    if res.branches.get("returned", 0) == 0:
+        res.nontrivial = False
 
 
 # ----------------------------------------------------------------------------------------
@@ -408,6 +605,97 @@ def _eval_fista(cell, res):
     (xs, Fs), F = _exact_min(A, b, "l1" if reg == "l1" else "box", lam, lo, up)
     sols = {}
     bad = {}       # operation -> {form: (message, detail)}
+
+    def judge(x):
+        """None, or (operation, message) naming the first optimality condition the point x violates."""
+        if not np.all(np.isfinite(x)):
+            return "fixed-point", "returned point is not finite"
+        g = A.T @ (A @ x - b)
+        fp = float(np.linalg.norm(x - ref_prox(x - t * g)))
+        if fp > 1e-7 * max(1.0, float(np.max(np.abs(x)))):
+            return "fixed-point", "||x - prox(x - t A^T(Ax-b))|| = %.3g" % fp
+        kt = 1e-6 * max(1.0, float(np.max(np.abs(g))))
+        if reg == "l1":
+            nz = np.abs(x) > 1e-7
+            viol = max([0.0] + list(np.abs(g[nz] + lam * np.sign(x[nz]))) + list(np.maximum(np.abs(g[~nz]) - lam, 0)))
+            feas = True
+        else:
+            feas = bool(np.all(x >= lo - 1e-9) and np.all(x <= up + 1e-9))
+            atlo = np.abs(x - lo) <= 1e-7
+            atup = np.abs(x - up) <= 1e-7
+            free = ~atlo & ~atup
+            viol = max([0.0] + list(np.abs(g[free])) + list(np.maximum(-g[atlo & ~atup], 0)) + list(np.maximum(g[atup & ~atlo], 0)))
+        if not feas or viol > kt:
+            return "kkt", "returned point violates the optimality system (feasible=%s, KKT violation %.3g)" % (feas, viol)
+        Fx = F(x)
+        if Fx > Fs + 1e-8 * (1 + abs(Fs)):
+            return "not-a-minimiser", "objective %.12g at the returned point > %.12g at the enumerated minimiser" % (Fx, Fs)
+        if m >= n and not close(x, xs, 1e-6):
+            return "not-a-minimiser", "strictly convex problem: returned point differs from the enumerated unique minimiser"
+        return None
+
+    rep = cell.get("rep", "float64")
+    if rep != "float64":
+        # start-representation cell: same start point handed over as `rep`; oracle: raises (lists only), or the returned point
+        # passes the same optimality systems as above, agrees with the float64-start run and - when that run meets the
+        # stopping rule after k iterations - is reached by the stopping rule within 10 k + 1000 iterations
+        rc = _rep_class(rep)
+        badr = {}
+        for form in ("matrix", "function"):
+            Aop = _store(A, cell["storage"])
+            op = Aop if form == "matrix" else _funform(Aop)
+            res.state("%s:%s:%s" % (form, cell["start"], rep))
+            try:
+                x64, it64 = FISTA(op, b.copy(), x0.copy(), prox, maxit=maxit, stepsize=t, abstol=abstol, adaptive=adaptive).solve()
+                x64 = np.asarray(x64, float).ravel()
+                ok64 = it64 < maxit and judge(x64) is None
+            except Exception:
+                ok64 = False
+            if not ok64:
+                res.count("float64-start-run-not-usable")     # not a representation matter; the float64 cells report it
+                continue
+            cap = 10 * int(it64) + 1000
+            xobj = _as_rep(x0, rep)
+            try:
+                x, it = FISTA(op, b.copy(), xobj, prox, maxit=cap, stepsize=t, abstol=abstol, adaptive=adaptive).solve()
+            except Exception as e:
+                res.refused += 1
+                res.outcomes.add("%s:raises:%s" % (rc, type(e).__name__))
+                if not _may_refuse(rep):
+                    res.fail("C16|FISTA|raises|x0=%s" % rc, "solver raised %r for a %s start vector" % (e, rep))
+                continue
+            res.transitions += int(it)
+            res.evaluations += 3
+            if not _start_unchanged(xobj, x0, rep):
+                res.fail("C16|FISTA|start-vector-altered|x0=%s" % rc, "the caller's start vector was modified by solve()", form=form)
+            try:
+                xa = np.asarray(x, float).ravel()
+                if xa.shape != (n,):
+                    raise ValueError("shape %s" % (xa.shape,))
+            except Exception as e:
+                badr[form] = ("returned object unusable as a vector: %r" % (e,), None)
+                continue
+            res.count("returned")
+            res.outcomes.add("%s:%s:%s:%s:it=%d(float64 start: %d)" % (solver, regname, form, rc, it, it64))
+            verdict = judge(xa)
+            why = None
+            if verdict is not None:
+                why = "%s: %s (after %d iterations; float64 start: fine after %d)" % (verdict[0], verdict[1], it, it64)
+            elif not close(xa, x64, 1e-7):
+                why = "returned point differs from the one reached from the float64 representation of the same start point"
+            elif it >= cap:
+                why = ("stopping rule (abstol=%g) not met within %d iterations; from the float64 representation of the same point "
+                       "it is met after %d" % (abstol, cap, it64))
+            if why:
+                badr[form] = (why, xa)
+        if badr:
+            f0 = sorted(badr)[0]
+            res.fail("C16|FISTA|start-representation|x0=%s" % rc, "%s, %s start %s: %s" % (facet, rep, cell["start"], badr[f0][0]),
+                     x=badr[f0][1], xstar=xs, forms=sorted(badr))
+        if res.branches.get("returned", 0) == 0:
+            res.nontrivial = False
+        return
+
     for form in ("matrix", "function"):
         Aop = _store(A, cell["storage"])
         op = Aop if form == "matrix" else _funform(Aop)
@@ -492,6 +780,10 @@ def _lm_problem(name, k):
         r = lambda x: np.array([10.0 * (x[1] - x[0] ** 2), 1.0 - x[0]])
         J = lambda x: np.array([[-20.0 * x[0], 10.0], [-1.0, 0.0]])
         starts = [np.array([-1.2, 1.0]), np.array([0.5, 2.0 + 0.25 * k])]
+    elif name == "introsen":    # Rosenbrock residuals from integer-valued starts (start-representation cells)
+        r = lambda x: np.array([10.0 * (x[1] - x[0] ** 2), 1.0 - x[0]])
+        J = lambda x: np.array([[-20.0 * x[0], 10.0], [-1.0, 0.0]])
+        starts = [np.array([-1.0, 2.0]), np.array([2.0, -1.0 - k])]
     elif name == "quadpert":
         A = refs.full_matrix(5, 3, k)
         b = refs.dyadic_vec(5, k + 1)
@@ -548,6 +840,9 @@ def _eval_lm(cell, res):
         return
     r, J, starts = _lm_problem(cell["prob"], k)
     x0 = starts[cell["start"]].astype(float)
+    if cell.get("rep", "float64") != "float64":
+        _eval_lm_rep(cell, res, r, J, x0, maxit)
+        return
     documented = (cell["sparse"] and cell["jtype"] == "csr") or (not cell["sparse"] and cell["jtype"] == "dense")
     jac = (lambda x: sp.csr_matrix(J(x))) if cell["jtype"] == "csr" else J
     facet = "sparse=%s,jac=%s" % (cell["sparse"], cell["jtype"])
@@ -607,6 +902,77 @@ def _eval_lm(cell, res):
     res.sample = {"x": x, "grad_norm": gn, "iterations": it}
 
 
+def _eval_lm_rep(cell, res, r0, J0, x0, maxit):
+    """Start-representation cell for LM (documented sparse/Jacobian combinations, reachable gradtol): raises (lists only), or
+    the returned point is stationary, agrees with the float64-start run, and is reached before maxit when that run is."""
+    import scipy.sparse as sp
+    from cuqi.solver import LM
+    rep = cell["rep"]
+    rc = _rep_class(rep)
+    r = lambda x: r0(np.asarray(x, float))          # the user's functions accept whatever array_like the solver hands them
+    J = lambda x: J0(np.asarray(x, float))
+    jac = (lambda x: sp.csr_matrix(J(x))) if cell["jtype"] == "csr" else J
+    facet = "sparse=%s,jac=%s" % (cell["sparse"], cell["jtype"])
+    res.state("%s,x0=%s" % (facet, rep))
+    g0n = max(1.0, float(np.linalg.norm(J(x0).T @ r(x0))))
+    try:
+        x64, info64 = LM(r, x0.copy(), jac, maxit=maxit, tol=1e-12, gradtol=1e-9, sparse=cell["sparse"]).solve()
+        x64 = np.asarray(x64, float).ravel()
+        it64 = int(info64["nfev"])
+        ok64 = it64 < maxit and np.all(np.isfinite(x64)) and float(np.linalg.norm(J(x64).T @ r(x64))) <= 1e-7 * g0n
+    except Exception:
+        ok64 = False
+    if not ok64:
+        res.count("float64-start-run-not-usable")
+        res.nontrivial = False
+        return
+    xobj = _as_rep(x0, rep)
+    try:
+        x, info = LM(r, xobj, jac, maxit=maxit, tol=1e-12, gradtol=1e-9, sparse=cell["sparse"]).solve()
+        it = int(info["nfev"])
+    except Exception as e:
+        res.refused += 1
+        res.outcomes.add("%s:raises:%s" % (rc, type(e).__name__))
+        res.nontrivial = False
+        if not _may_refuse(rep):
+            res.fail("C16|LM|raises|x0=%s" % rc, "solver raised %r for a %s start vector" % (e, rep))
+        return
+    res.transitions += it
+    res.evaluations += 3
+    if not _start_unchanged(xobj, x0, rep):
+        res.fail("C16|LM|start-vector-altered|x0=%s" % rc, "the caller's start vector was modified by solve()")
+    why = None
+    xa = None
+    try:
+        xa = np.asarray(x, float).ravel()
+        if xa.shape != x0.shape:
+            raise ValueError("shape %s" % (xa.shape,))
+    except Exception as e:
+        why = "returned object unusable as a vector: %r" % (e,)
+    if why is None:
+        res.count("converged" if it < maxit else "maxit-reached")
+        res.outcomes.add("%s:%s:it=%d(float64 start: %d)" % (cell["prob"], rc, it, it64))
+        gn = float(np.linalg.norm(J(xa).T @ r(xa))) if np.all(np.isfinite(xa)) else float("inf")
+        if it >= maxit:
+            why = "did not reach the gradient tolerance within %d iterations; from the float64 representation of the same point it does after %d" % (maxit, it64)
+        elif not gn <= 1e-7 * g0n:
+            why = "stopped after %d<maxit iterations but ||J^T r|| = %.3g (initially %.3g)" % (it, gn, g0n)
+        elif not close(xa, x64, 1e-6):
+            why = "returned point differs from the one reached from the float64 representation of the same start point"
+        else:
+            try:
+                rf = np.asarray(info["func"], float).ravel()
+                Jf = info["Jac"]
+                Jf = np.asarray(Jf.todense()) if hasattr(Jf, "todense") else np.asarray(Jf, float)
+                if not close(rf, r(xa), 1e-9) or not close(Jf, J(xa), 1e-9):
+                    why = "info['func']/info['Jac'] are not the residual/Jacobian at the returned point"
+            except Exception as e:
+                why = "info unusable: %r" % (e,)
+    if why:
+        res.fail("C16|LM|start-representation|x0=%s" % rc, "%s, %s start %s: %s" % (facet, rep, x0.tolist(), why), x=xa, x_float64_start=x64)
+    res.sample = {"x": xa, "iterations": it, "iterations_float64_start": it64}
+
+
 # ----------------------------------------------------------------------------------------
 # SciPy wrappers
 # ----------------------------------------------------------------------------------------
@@ -633,24 +999,51 @@ def _same(a, b, rtol=1e-12):
         return False
 
 
+def _wrapper_start(cell, n, k):
+    v = cell.get("x0val", "dyadic")
+    if v == "dyadic":
+        return refs.dyadic_vec(n, k + 3)
+    return _start(v, n, k)
+
+
+def _x0facet(x0type):
+    return "" if x0type in ("ndarray", "CUQIarray") else ",x0=%s" % _rep_class(x0type)
+
+
 def _eval_lbfgsb(cell, res):
     from scipy.optimize import fmin_l_bfgs_b
     from cuqi.solver import L_BFGS_B
     n, k = cell["n"], cell["cat"]
     f, g = _objective(n, k)
-    x0 = refs.dyadic_vec(n, k + 3)
+    x0 = _wrapper_start(cell, n, k)
+    x0type = cell.get("x0type", "ndarray")
+    xf = _x0facet(x0type)
     kw = {"none": {}, "bounds": {"bounds": [(-0.25, 0.5)] * n}, "maxiter1": {"maxiter": 1}, "maxfun3": {"maxfun": 3}}[cell["kw"]]
     grad = g if cell["grad"] else None
-    facet = "grad=%s,kwargs=%s" % (cell["grad"], cell["kw"])
-    ref = fmin_l_bfgs_b(f, x0.copy(), fprime=grad, approx_grad=0 if cell["grad"] else 1, **kw)
+    facet = "grad=%s,kwargs=%s%s" % (cell["grad"], cell["kw"], xf)
+    try:
+        ref = fmin_l_bfgs_b(f, _as_rep(x0, x0type), fprime=grad, approx_grad=0 if cell["grad"] else 1, **kw)
+    except Exception as e:
+        ref = None      # SciPy itself refuses this start representation
+        res.outcomes.add("scipy-refuses:" + type(e).__name__)
     res.state(facet)
     res.transitions += 1
+    x0arg = _as_rep(x0, x0type)
     try:
-        x, info = L_BFGS_B(f, x0.copy(), gradfunc=grad, **kw).solve()
+        x, info = L_BFGS_B(f, x0arg, gradfunc=grad, **kw).solve()
     except Exception as e:
         res.refused += 1
-        res.fail("C16|L_BFGS_B|raises|%s" % facet, "wrapper raised %r where the direct SciPy call returns" % (e,))
+        if ref is not None:
+            res.fail("C16|L_BFGS_B|raises|%s" % facet, "wrapper raised %r where the direct SciPy call returns" % (e,))
+        else:
+            res.nontrivial = False
         return
+    if ref is None:
+        res.fail("C16|L_BFGS_B|x|scipy-refuses%s" % xf, "wrapper returned although SciPy refuses this configuration")
+        return
+    res.evaluations += 1
+    if not _start_unchanged(x0arg, x0, x0type):
+        res.fail("C16|L_BFGS_B|start-vector-altered|x0=%s" % _rep_class(x0type), "the caller's start vector was modified by solve()")
     d = ref[2]
     res.outcomes.add("warnflag=%d" % d["warnflag"])
     checks = [("x", x, ref[0]), ("func", info.get("func"), ref[1]), ("grad", info.get("grad"), d["grad"]),
@@ -659,7 +1052,7 @@ def _eval_lbfgsb(cell, res):
     for nm, a, bb in checks:
         res.evaluations += 1
         if not _same(a, bb):
-            res.fail("C16|L_BFGS_B|%s|warnflag=%d" % (nm, d["warnflag"]), "%s: wrapper's %s = %r, SciPy's = %r" % (facet, nm, a, bb))
+            res.fail("C16|L_BFGS_B|%s|warnflag=%d%s" % (nm, d["warnflag"], xf), "%s: wrapper's %s = %r, SciPy's = %r" % (facet, nm, a, bb))
             break      # a wrong x makes every later field differ: report the first (most upstream) difference only
     res.sample = {"x": x, "scipy_x": ref[0], "warnflag": d["warnflag"]}
 
@@ -669,18 +1062,35 @@ def _eval_minimize(cell, res):
     import scipy.optimize as opt
     n, k = cell["n"], cell["cat"]
     f, g = _objective(n, k)
-    x0 = refs.dyadic_vec(n, k + 3)
+    x0 = _wrapper_start(cell, n, k)
+    x0type = cell["x0type"]
+    xf = _x0facet(x0type)
     method, which = cell["method"], cell["which"]
     grad = g if cell["grad"] else None
-    ref = opt.minimize(f, x0.copy(), jac=grad, method=method)
-    has_jac = "jac" in ref
-    has_nit = "nit" in ref
+    try:
+        ref = opt.minimize(f, x0.copy() if x0type == "CUQIarray" else _as_rep(x0, x0type), jac=grad, method=method)
+    except Exception as e:
+        ref = None      # SciPy itself refuses this start representation (e.g. float32 with the compiled TNC / SLSQP kernels)
+        res.outcomes.add("scipy-refuses:%s:%s" % (method, type(e).__name__))
+    has_jac = ref is not None and "jac" in ref
+    has_nit = ref is not None and "nit" in ref
     facet = "method=%s" % method if (has_jac and has_nit) else "scipy-result-without-%s" % ("jac" if not has_jac else "nit")
-    res.state("%s:%s" % (which, method))
+    facet += xf
+    res.state("%s:%s:%s" % (which, method, x0type))
     res.transitions += 1
-    x0arg = x0.copy()
-    if cell["x0type"] == "CUQIarray":
-        x0arg = cuqi.array.CUQIarray(x0.copy(), geometry=cuqi.geometry.Continuous1D(n))
+    x0arg = _as_rep(x0, x0type)
+    if ref is None:
+        try:
+            if which == "minimize":
+                cuqi.solver.minimize(f, x0arg, gradfunc=grad, method=method).solve()
+            else:
+                cuqi.solver.maximize(lambda x: -f(x), x0arg, gradfunc=(lambda x: -g(x)) if cell["grad"] else None, method=method).solve()
+        except Exception:
+            res.refused += 1
+            res.nontrivial = False
+            return
+        res.fail("C16|%s|x|scipy-refuses%s" % (which, xf), "wrapper returned although SciPy refuses method=%r with this start" % (method,))
+        return
     try:
         if which == "minimize":
             x, info = cuqi.solver.minimize(f, x0arg, gradfunc=grad, method=method).solve()
@@ -695,6 +1105,9 @@ def _eval_minimize(cell, res):
                  "wrapper raised %r where scipy.optimize.minimize(method=%r) returns x=%s" % (e, method, np.round(ref.x, 6).tolist()))
         return
     res.outcomes.add("%s:%s:%s" % (which, method, bool(ref.success)))
+    res.evaluations += 1
+    if not _start_unchanged(x0arg, x0, x0type):
+        res.fail("C16|%s|start-vector-altered|x0=%s" % (which, _rep_class(x0type)), "the caller's start vector was modified by solve()")
     if cell["x0type"] == "CUQIarray":
         res.evaluations += 1
         if not isinstance(x, cuqi.array.CUQIarray) or x.geometry != x0arg.geometry:
@@ -713,7 +1126,7 @@ def _eval_minimize(cell, res):
             ok = _same(a, bb)
         if not ok:
             gf = "gradfunc=%s" % ("given" if cell["grad"] else "None")
-            res.fail("C16|%s|%s|%s" % (which, nm, gf), "method=%r: wrapper's %s = %r, SciPy's = %r" % (method, nm, a, bb))
+            res.fail("C16|%s|%s|%s%s" % (which, nm, gf, xf), "method=%r: wrapper's %s = %r, SciPy's = %r" % (method, nm, a, bb))
             break      # report the first (most upstream) difference only
     res.sample = {"x": np.asarray(x), "scipy_x": ref.x}
 
@@ -723,27 +1136,28 @@ def _eval_ls(cell, res):
     from scipy.optimize import least_squares
     k = cell["cat"]
     r, J, starts = _lm_problem("expfit", k)
-    x0 = starts[0]
+    x0 = starts[cell.get("x0start", 0)]
+    x0type = cell["x0type"]
+    xf = _x0facet(x0type)
     method, loss = cell["method"], cell["loss"]
-    facet = "method=%s,loss=%s,jacfun=%s" % (method, loss, "given" if cell["jac"] else "None")
+    facet = "method=%s,loss=%s,jacfun=%s%s" % (method, loss, "given" if cell["jac"] else "None", xf)
     tol, maxit = 1e-8, 200
     try:
-        ref = least_squares(r, x0.copy(), jac=J if cell["jac"] else "2-point", method=method, loss=loss, xtol=tol, max_nfev=maxit)
+        ref = least_squares(r, x0.copy() if x0type == "CUQIarray" else _as_rep(x0, x0type), jac=J if cell["jac"] else "2-point",
+                            method=method, loss=loss, xtol=tol, max_nfev=maxit)
     except Exception as e:
         ref = None   # SciPy itself refuses (e.g. method='lm' with a robust loss)
         res.outcomes.add("scipy-refuses:" + type(e).__name__)
     res.state(facet)
     res.transitions += 1
-    x0arg = x0.copy()
-    if cell["x0type"] == "CUQIarray":
-        x0arg = cuqi.array.CUQIarray(x0.copy(), geometry=cuqi.geometry.Continuous1D(len(x0)))
+    x0arg = _as_rep(x0, x0type)
     try:
         x, info = cuqi.solver.LS(r, x0arg, jacfun=J if cell["jac"] else None, method=method, loss=loss, tol=tol, maxit=maxit).solve()
     except Exception as e:
         res.refused += 1
         res.outcomes.add("raises:%s" % type(e).__name__)
         if ref is not None:
-            res.fail("C16|LS|raises|jacfun=%s" % ("given" if cell["jac"] else "None"),
+            res.fail("C16|LS|raises|jacfun=%s%s" % ("given" if cell["jac"] else "None", xf),
                      "wrapper raised %r where scipy.optimize.least_squares (documented: 'If None, then the solver approximates "
                      "the Jacobian') returns x=%s" % (e, np.round(ref.x, 6).tolist()))
         else:
@@ -753,6 +1167,9 @@ def _eval_ls(cell, res):
         res.fail("C16|LS|x|%s" % facet, "wrapper returned although SciPy refuses this configuration")
         return
     res.outcomes.add("ls:%s:%s:%d" % (method, loss, ref.status))
+    res.evaluations += 1
+    if not _start_unchanged(x0arg, x0, x0type):
+        res.fail("C16|LS|start-vector-altered|x0=%s" % _rep_class(x0type), "the caller's start vector was modified by solve()")
     if cell["x0type"] == "CUQIarray":
         res.evaluations += 1
         if not isinstance(x, cuqi.array.CUQIarray) or x.geometry != x0arg.geometry:
@@ -761,7 +1178,7 @@ def _eval_ls(cell, res):
                       ("nfev", info.get("nfev"), ref.nfev), ("success", float(bool(info.get("success"))), float(bool(ref.success)))]:
         res.evaluations += 1
         if not _same(a, bb):
-            res.fail("C16|LS|%s|jacfun=%s" % (nm, "given" if cell["jac"] else "None"),
+            res.fail("C16|LS|%s|jacfun=%s%s" % (nm, "given" if cell["jac"] else "None", xf),
                      "%s: wrapper's %s = %r, SciPy's = %r" % (facet, nm, a, bb))
             break
     else:
